@@ -16,7 +16,27 @@ def leaf_case(rng, tier, classes=None, flow_mode=None, **kw):
   return {'dev': d, 's': s, 'p': p, '_shape': rng.choice(['flat', 'flat', 'row'])}
 
 
+def make_ints(rng, case):
+  """turn the flow of a leaf case into an all-integer in-bounds flow handed over as INTEGER-typed data (`_ints`), when every
+  slot's bounds contain an integer; otherwise leave the case as it is.  Callers pass integer arrays all the time
+  (`np.zeros(n, dtype=int)`, `device.lbounds` of integer bounds)."""
+  d = case['dev']; s = []
+  for lo, hi in zip(d['lb'], d['hb']):
+    a = math.ceil(Fraction(lo)); b = math.floor(Fraction(hi))
+    if a > b:
+      return case
+    s.append(rng.randint(a, b))
+  case['s'] = [str(x) for x in s]; case['_ints'] = 'array'
+  return case
+
+
 def flow_arr(case, s=None):
+  if case.get('_ints') and s is None:
+    ints = [int(Fraction(x)) for x in case['s']]
+    if case['_ints'] == 'list' and case.get('_shape') != 'row':
+      return ints
+    a = np().array(ints, dtype=int)
+    return a.reshape(1, -1) if case.get('_shape') == 'row' else a
   a = build.arr(s if s is not None else case['s'])
   return a.reshape(1, -1) if case.get('_shape') == 'row' else a
 
